@@ -270,6 +270,9 @@ def make_env(kind: str, templates: dict[str, str], counter: list[int], root: str
     del liquid2
     kw = dict(env_kwargs or {})
     limits = kw.pop("_limits", None)
+    if kw.pop("_shopify", False):
+        # the environment with the optional tags and filters (tablerow, base64_*)
+        from liquid2.shopify import Environment as Environment  # noqa: PLC0414
     if limits:
         # resource limits are class attributes of the environment
         class LimitedEnv(Environment):
@@ -281,7 +284,7 @@ def make_env(kind: str, templates: dict[str, str], counter: list[int], root: str
     return Environment(loader=loader, **kw)
 
 
-VARIANTS = ["default", "strict", "autoescape", "falsy-strict", "autoescape+strict", "limits-tight", "limits-mid"]
+VARIANTS = ["default", "strict", "autoescape", "falsy-strict", "autoescape+strict", "limits-tight", "limits-mid", "shopify"]
 
 # Small resource limits: both APIs must refuse the same programs at the same place.  (A
 # context copied once too often, or a carry lost, on ONE path shows as an error on that path
@@ -300,6 +303,8 @@ def env_variant(v: str) -> dict[str, Any]:
     kw: dict[str, Any] = {}
     if v in LIMITS:
         kw["_limits"] = LIMITS[v]
+    if v == "shopify":
+        kw["_shopify"] = True
     if "autoescape" in v:
         kw["auto_escape"] = True
     if v.endswith("falsy-strict"):
@@ -432,6 +437,15 @@ FIXTURES: list[tuple[str, dict[str, str], dict[str, Any]]] = [
      {"row": "<{{ row }}{% for i in (1..2) %}{{ i }}{% endfor %}>"}, {"rows": list(range(1, 12))}),
     ("{% extends 'lay2' %}{% block b %}{% for r in rows %}{% render 'cell' for rows as c %}{% endfor %}{% endblock %}",
      {"lay2": "[{% block b %}{% endblock %}]", "cell": "{{ c }}"}, {"rows": list(range(1, 7))}),
+    # tablerow (optional tag; a syntax error in the other configurations): interrupts from every cell
+    ("{% tablerow x in rows cols: 2 %}{{ x }}{% if x == stop.a %}{% break %}{% endif %}{% if x == stop.b %}{% continue %}{% endif %}!{% endtablerow %}|"
+     "{% tablerow x in rows cols: 1 %}{{ x }}{% if x == stop.a %}{% break %}{% endif %}{% endtablerow %}|"
+     "{% tablerow x in rows cols: 3 limit: 5 %}{{ tablerowloop.col }}{% if x == stop.c %}{% break %}{% endif %}{% endtablerow %}|"
+     "{% for r in xs.items %}{% tablerow x in rows cols: 2 %}{% if x == r.v %}{% break %}{% endif %}{{ x }}{% endtablerow %}{% endfor %}",
+     {}, {"rows": list(range(1, 7)), "stop": {"a": 2, "b": 3, "c": 3}, "xs": {"items": [{"v": 1}, {"v": 2}, {"v": 4}, {"v": 6}]}}),
+    ("{% tablerow x in rows cols: 2 %}{{ x }}{% if x == stop.a %}{% break %}{% endif %}{% endtablerow %}"
+     "{% tablerow p in ps cols: 2 %}{{ p.v }}{% render 'cellp', v: p.v %}{% if p.last %}{% break %}{% endif %}{% endtablerow %}",
+     {"cellp": "({{ v }})"}, {"rows": [1, 2, 3, 4], "stop": {"a": 4}, "ps": [{"v": 1}, {"v": 2, "last": True}, {"v": 3}]}),
     ("{% capture c %}{{ a.b }}{% endcapture %}{{ c }}{% assign z = a.b | append: a.c %}{{ z }}{% with q: a.c %}{{ q }}{% endwith %}"
      "{% cycle a.b, a.c %}{% cycle a.b, a.c %}{{ 'x${a.b}y' }}{% for i in (a.lo..a.hi) %}{{ i }}{% endfor %}",
      {}, {"a": {"b": "B", "c": "C", "lo": 1, "hi": 3}}),
@@ -514,9 +528,38 @@ class Work:
         if root:
             shutil.rmtree(root, ignore_errors=True)
 
+    def globals_ops(self, templates: dict[str, str], kind: str) -> None:
+        """Repeated loads of one template by name on an environment WITH globals (the second and
+        third are hits for caching loaders), with and without template globals: every load renders
+        the same through both APIs."""
+        ctx = self.ctx
+        tpls = {**templates, "gprobe__": "{{ site_g }}|{{ tg }}|{% include 'gpart__' %}", "gpart__": "[{{ site_g }}{{ tg }}]"}
+        root = self.fs_root(tpls) if kind in FS_KINDS else None
+        kw = {"globals": {"site_g": "SG", **({"site": "siteA"} if kind == "caching-ns" else {})}}
+        env_s = make_env(kind, tpls, [0], root, kw)
+        env_a = make_env(kind, tpls, [0], root, kw)
+        for i, g in enumerate((None, {"tg": "T1"}, None, {"tg": "T2"}, None)):
+            s = outcome(lambda: env_s.get_template("gprobe__", globals=g).render())
+
+            async def load_render():  # noqa: ANN202
+                t = await env_a.get_template_async("gprobe__", globals=g)
+                return await t.render_async()
+
+            a = run_async(kind, load_render)
+            ctx.ev(2)
+            ctx.count("globals_load_pairs")
+            if s != a:
+                ctx.violation(f"get_template-globals:{_diffkind(s, a)}:{kind}:load-{i + 1}",
+                              f"load {i + 1} with globals={g}: sync={_short(s)} async={_short(a)}",
+                              {"op": "globals", "templates": templates, "kind": kind})
+                break
+        if root:
+            shutil.rmtree(root, ignore_errors=True)
+
     def template_ops(self, templates: dict[str, str], data: dict[str, Any], kind: str) -> None:
         """get_template / analyze vs async twins, for every template of the set."""
         ctx = self.ctx
+        self.globals_ops(templates, kind)
         root = self.fs_root(templates) if kind in FS_KINDS else None
         for name in templates:
             env_s = make_env(kind, templates, [0], root)
@@ -751,8 +794,8 @@ def shards(tier: str, seed: int) -> list[dict[str, Any]]:
 def floors(tier: str) -> dict[str, int]:
     k = 1 if tier == "quick" else 15
     return {"sync_async_pairs": 1000 * k, "schedules_explored": 2000 * k, "schedule_sets_exhaustive": 50 * k,
-            "get_template_pairs": 200 * k, "get_template_pairs:load-context-kwargs": 40 * k, "analyze_pairs": 100 * k, "set:loader_kinds": 17, "load_then_tag_pairs": 200 * k,
-            "sync_async_pairs:limits-tight": 60 * k, "sync_async_pairs:limits-mid": 60 * k, "error_pairs": 50 * k,
+            "get_template_pairs": 200 * k, "get_template_pairs:load-context-kwargs": 40 * k, "analyze_pairs": 100 * k, "set:loader_kinds": 17, "load_then_tag_pairs": 200 * k, "globals_load_pairs": 300 * k,
+            "sync_async_pairs:limits-tight": 60 * k, "sync_async_pairs:limits-mid": 60 * k, "sync_async_pairs:shopify": 60 * k, "error_pairs": 50 * k,
             "load_render_schedules": 300 * k}
 
 
@@ -788,18 +831,25 @@ def run_shard(spec: dict[str, Any], ctx: Ctx) -> None:
                     w.template_ops(dict(tset), {}, kind)
             ctx.sample({"kind": "corpus", "source": src, "templates": tpls})
         elif spec["kind"] == "gen":
+            from ..core import CaseBudget
+            from ..core import case_budget
+
             for _ in range(spec["per"]):
                 src, tpls, data, _g = gen_case(rng)
                 kind = rng.choice(DICT_KINDS if tpls else ["dict", "gated"])
-                w.differential(src, tpls, data, kind, "gen")
-                if tpls and rng.random() < 0.2:
-                    w.differential(src, tpls, data, rng.choice(FS_KINDS), "gen")
-                if tpls and rng.random() < 0.25:
-                    w.template_ops(tpls, data, rng.choice(DICT_KINDS + FS_KINDS))
+                try:
+                    with case_budget(120):
+                        w.differential(src, tpls, data, kind, "gen")
+                        if tpls and rng.random() < 0.2:
+                            w.differential(src, tpls, data, rng.choice(FS_KINDS), "gen")
+                        if tpls and rng.random() < 0.25:
+                            w.template_ops(tpls, data, rng.choice(DICT_KINDS + FS_KINDS))
+                except CaseBudget:
+                    ctx.count("cases_skipped:wall-clock-watchdog")
             ctx.sample({"kind": "gen", "source": src, "templates": tpls, "data": data})
         else:
             done = 0
-            fixtures = list(FIXTURES)
+            fixtures = [f for f in FIXTURES if "tablerow" not in f[0]]  # (optional tag: not in these environments)
             while done < spec["per"]:
                 if rng.random() < 0.35:
                     src, tpls, data = rng.choice(fixtures)
@@ -843,6 +893,8 @@ def replay(wit: dict[str, Any], ctx: Ctx) -> None:
         op = wit["op"]
         if op == "render":
             w.differential(wit["source"], wit["templates"], wit["data"], wit["kind"], "replay", wit.get("variant", "default"))
+        elif op == "globals":
+            w.globals_ops(wit["templates"], wit["kind"])
         elif op in ("get_template", "analyze"):
             w.template_ops(wit["templates"], wit["data"], wit["kind"])
         elif op == "schedule":
